@@ -77,6 +77,9 @@ pub struct Stepper {
     /// "late loop" schedule: when the loop is not blocked, one iteration covers this many
     /// milliseconds (handle_time_ticks then calls tick_ms(n) once). 1 = an iteration per ms.
     pub batch: u64,
+    /// ticks the output recorder has counted so far / ticks covered by the tick_ms call being drained
+    rec_ticks: u64,
+    cur_n: u64,
     pub tick_err: Option<String>,
     sleep_base: u64,
     custom_dropped_base: u64,
@@ -142,6 +145,8 @@ impl Stepper {
             probes: Probes::default(),
             flood: false,
             batch: 1,
+            rec_ticks: 0,
+            cur_n: 1,
             tick_err: None,
             sleep_base: kanata_verif_rt::inactive_slept_ns(),
             custom_dropped_base: kanata_keyberon::layout::VERIF_CUSTOM_EVENTS_DROPPED.load(std::sync::atomic::Ordering::Relaxed),
@@ -204,9 +209,21 @@ impl Stepper {
             evs
         };
         for s in evs {
+            // the recorder's own clock: "t:Nms" = N ticks completed since its previous entry
+            if let Some(n) = s.strip_prefix("t:").and_then(|r| r.strip_suffix("ms")).and_then(|n| n.parse::<u64>().ok()) {
+                self.rec_ticks += n;
+                continue;
+            }
             if let Some(mut e) = parse_out(self.now, &s) {
                 e.in_idx = self.last_in;
                 e.dt = self.ticks_since_in;
+                if self.cur_n > 1 {
+                    // one tick_ms(n) call covered n ticks: place the output at the tick in which the
+                    // recorder saw it (it happened in tick rec_ticks + 1 of trace.ticks so far)
+                    let back = self.trace.ticks.saturating_sub(self.rec_ticks + 1).min(self.cur_n - 1);
+                    e.t -= back;
+                    e.dt -= back.min(e.dt);
+                }
                 if self.blockable {
                     self.trace.outputs_while_blockable.push(e.clone());
                 }
@@ -310,7 +327,9 @@ impl Stepper {
         self.ticks_since_in += n as u64;
         self.trace.ticks += n as u64;
         self.trace.sim_ms += n as u64;
+        self.cur_n = n as u64;
         self.drain();
+        self.cur_n = 1;
         self.probe();
     }
 
